@@ -29,7 +29,7 @@ EXTENDS Integers, Sequences, FiniteSets, TLC
 
 Max2(a, b) == IF a > b THEN a ELSE b
 
-NewHalf == [started |-> FALSE, next |-> 0, segs |-> {}, kept |-> 0, ended |-> FALSE, anchor |-> FALSE]
+NewHalf == [started |-> FALSE, next |-> 0, segs |-> {}, kept |-> 0, ended |-> FALSE, anchor |-> FALSE, pending |-> {}]
 NewConn == [news |-> 0, completes |-> 0, removed |-> FALSE, incarnation |-> 0]
 NewState == [h |-> <<>>, c |-> <<>>, cfg |-> [asm |-> "reassembly", limit |-> 0],
              flush |-> [kind |-> "none", t |-> 0], maxpkt |-> 0]
@@ -58,9 +58,10 @@ RunLen(r) == IF Len(r) = 0 THEN 0 ELSE r[1][2] - r[1][1]
 JudgeSeg(st, e) ==
   LET k == HKey(e)
       h == GetH(st, k)
-      s == [lo |-> e.lo, hi |-> e.hi, ts |-> e.ts, fin |-> (e.fin \/ e.rst)]
+      s == [lo |-> e.lo, hi |-> e.hi, ts |-> e.ts, fin |-> (e.fin \/ e.rst), syn |-> e.syn]
   IN IF GetC(st, e.c).completes > 0
-     THEN <<"ok", st>>                 \* segments after completion of the stream are ignored
+     THEN \* after completion of the stream the segment can only belong to a later incarnation of the connection
+          <<"ok", PutH(st, k, [h EXCEPT !.pending = @ \cup {s}])>>
      ELSE LET h1 == [h EXCEPT !.segs = @ \cup {s}]
               h2 == IF ~h.started /\ e.syn THEN [h1 EXCEPT !.started = TRUE, !.next = 0, !.kept = 0]
                     ELSE IF ~h.started /\ e.force THEN [h1 EXCEPT !.started = TRUE, !.next = e.lo, !.kept = e.lo]
@@ -110,7 +111,15 @@ JudgeNew(st, e) ==
   LET c == GetC(st, e.c)
       fresh == [NewConn EXCEPT !.news = 1, !.incarnation = c.incarnation + 1]
       \* a new incarnation forgets both directions
-      st2 == [st EXCEPT !.h = [x \in DOMAIN st.h |-> IF x[1] = e.c THEN NewHalf ELSE st.h[x]]]
+      \* (segments logged before the very first "new" of a connection are kept: concurrent drivers log
+      \* the segment before the call that creates the stream)
+      \* a later incarnation inherits the segments its predecessor had been handed but never delivered
+      \* (a concurrent flush may close a connection between a packet's lookup and its processing)
+      Carry(h) == LET und == {x \in h.segs : ~h.started \/ x.hi > h.next \/ (x.lo = x.hi /\ x.syn /\ ~h.started)} \cup h.pending
+                      syn == \E x \in und : x.syn
+                  IN [NewHalf EXCEPT !.segs = und, !.started = syn]
+      st2 == IF c.news = 0 THEN st
+             ELSE [st EXCEPT !.h = [x \in DOMAIN st.h |-> IF x[1] = e.c THEN Carry(st.h[x]) ELSE st.h[x]]]
   IN IF c.news > 0 /\ c.completes = 0      \* the previous stream of this connection was never completed
      THEN <<"second-stream-for-live-connection", PutC(st2, e.c, fresh)>>
      ELSE <<"ok", PutC(st2, e.c, fresh)>>
@@ -154,6 +163,10 @@ Judge(st, e) ==
     [] e.op = "flushb"   -> <<"ok", [st EXCEPT !.flush = [kind |-> e.kind, t |-> e.t]]>>
     [] e.op = "flushe"   -> JudgeFlushEnd(st, e)
     [] e.op = "api"      -> JudgeApi(st, e)
+    [] e.op = "misdelivery" -> <<"packet-handed-to-another-connections-stream", st>>
+    [] e.op = "overlap"  -> <<"concurrent-callbacks-on-one-stream", st>>
+    [] e.op = "stuck"    -> <<"deadlock-or-stall", st>>
+    [] e.op = "race"     -> <<"data-race", st>>
     [] e.op = "panic"    -> <<"panic", st>>
     [] e.op = "hang"     -> <<"hang", st>>
     [] OTHER             -> <<"unknown-event", st>>
